@@ -56,4 +56,8 @@ CHECKS = {
         text='For every signature (and parameter) of the <=3-named universe in 4 decorations (eager/postponed), 60k algebra results and generated discovery results: str/bind/bind_partial agree with the plain inspect counterpart on every shape; replace() keeps type/provenance/upgraded annotations unless overridden; ==/!= against 20 partner kinds return bools, are reflexive, symmetric (also against plain counterparts, which compare equal), negation-consistent and hash-consistent; hashable whenever the plain counterpart is (9M evaluations in thorough).',
         design_ref='DESIGN.md 2/C14', technique='bounded-exhaustive enumeration + Hypothesis; differential against plain inspect.Signature/Parameter objects and algebraic laws of equality/hash over a partner menagerie',
         note='Partners whose own __eq__ misbehaves are out of scope; the indifferent partner returns NotImplemented.'),
+    'C08': dict(
+        text='The provenance invariant (one entry per parameter plus +depths, non-empty duplicate-free lists of callables that have a depth and declare the name, exact contributors on role-consistent merge inputs, single truthful contributor for embed/forwards, input depths 0/1/i, no stray depth keys, wrapper-for-wrapped swap) holds on every merge result over all 1.7M ordered pairs, every embed result over 1.15M (outer, inner, flags) cases incl. same-named inner stars, 800k mask/forwards/3-ary results, 32k Hypothesis cases, 500 generated forwarding chains (functions, methods, wraps, partial, modifiers, forwards_to, decorator; depth increase and min-depth on a diamond) and a list of standard-library callables.',
+        design_ref='DESIGN.md 2/C08', technique='bounded-exhaustive enumeration + Hypothesis with an invariant oracle over result.sources (ground truth: which input callable declares which name, known by construction)',
+        note='"Declares" = own def parameters or what signatures.signature(obj) advertises (a functools.wraps wrapper stands for both). One known finding (F14, duplicates from merging two forwarding calls) is excluded by bucket.'),
 }
